@@ -2,7 +2,7 @@
 import json, os
 from vlib import core
 
-THEOREMS = ['source_shape', 'stop_recognised', 'never_gives_up', 'failure_count', 'down_after_two', 'up_on_reconnect',
+THEOREMS = ['source_shape', 'stop_recognised', 'never_gives_up', 'failure_count', 'reports_exact', 'down_after_two', 'up_on_reconnect',
             'reports_alternate', 'reports_follow_state', 'no_dial_after_stop', 'stop_is_silent', 'next_dial_uses_latest_addr',
             'retry_calls_bounded', 'trysend_retries', 'trysend_stops']
 MODULES = ['LLRP.Model.Supervisor', 'LLRP.Oracle.C15']
